@@ -1,5 +1,5 @@
 (* C06 — fork coins: scripts are tokenised by Bitcoin push rules and typed by template. Pinned statements only: each theorem is closed by `exact` of a lemma proved in theories/. *)
-From RBP Require Import Bytes Hashes Base58 Bech32 Utf8 ScriptCustom CustomTop ScriptCustomP ScriptBtc ScriptBtcP.
+From RBP Require Import Bytes Hashes Codec Base58 Bech32 Segwit Utf8 ScriptCustom CustomTop ScriptCustomP ScriptBtc ScriptBtcP ScriptBtcSpec Wire Block Index Model OpReturnP.
 From RBP Require Drive Merkle Utxo Stats OutProto Reader Published Misc.
 
 Theorem C06_ip_machine_is_structural_tokenizer :
@@ -19,8 +19,8 @@ Theorem C06_template_match_shape :
 Proof. exact match_template_shape. Qed.
 
 Theorem C06_templates_exclusive :
-  forall l : bytes, (is_p2pkh l = true -> is_p2sh l = false /\ p2pk_key l = None /\ witness_version l = None) /\ (is_p2sh l = true -> p2pk_key l = None /\ witness_version l = None) /\ (p2pk_key l <> None -> witness_version l = None).
-Proof. exact templates_exclusive. Qed.
+  forall (ts : list tok) (i j : nat), (i < length Published.templates)%nat -> (j < length Published.templates)%nat -> match_template ts (snd (nth i Published.templates (0, []))) = true -> match_template ts (snd (nth j Published.templates (0, []))) = true -> i = j.
+Proof. exact ScriptCustomP.templates_exclusive. Qed.
 
 Theorem C06_cascade_order_irrelevant :
   forall (ts : list tok) (i : nat), (i < length Published.templates)%nat -> match_template ts (snd (nth i Published.templates (0, []))) = true -> first_match ts Published.templates = Some (fst (nth i Published.templates (0, []))).
@@ -70,6 +70,22 @@ Theorem C06_b58_digits_roundtrip :
   forall bs : bytes, wfb bs = true -> b58_undigits (b58_digits bs) = bs.
 Proof. exact b58_digits_roundtrip. Qed.
 
+Theorem C06_address_decodes :
+  forall (version : N) (h : bytes), version < 256 -> wfb h = true -> b58check_decode (hash160_to_address version h) = Some (version :: h).
+Proof. exact address_decodes. Qed.
+
+Theorem C06_p2pk_address_decodes :
+  forall (version : N) (pk : bytes), version < 256 -> b58check_decode (public_key_to_addr version pk) = Some (version :: hash160 pk).
+Proof. exact Base58.p2pk_address_decodes. Qed.
+
+Theorem C06_base58check_roundtrip :
+  forall p : bytes, wfb p = true -> b58check_decode (b58check_encode p) = Some p.
+Proof. exact b58check_roundtrip. Qed.
+
+Theorem C06_push_forms_tokenise :
+  forall (f : pform) (d : bytes), pfits f d -> d <> [] -> toks (length (106 :: enc_push f d)) (106 :: enc_push f d) = Some [TOp 106; TData d].
+Proof. exact toks_opreturn_push. Qed.
+
 Print Assumptions C06_ip_machine_is_structural_tokenizer.
 Print Assumptions C06_eval_total.
 Print Assumptions C06_never_panics.
@@ -87,3 +103,7 @@ Print Assumptions C06_never_error.
 Print Assumptions C06_truncated_push_not_recognised.
 Print Assumptions C06_verdict_of_tokens.
 Print Assumptions C06_b58_digits_roundtrip.
+Print Assumptions C06_address_decodes.
+Print Assumptions C06_p2pk_address_decodes.
+Print Assumptions C06_base58check_roundtrip.
+Print Assumptions C06_push_forms_tokenise.
